@@ -105,10 +105,21 @@ WholeOps   == {"dropMsg", "childSide"}
 \*              island. that the (replaced) DNSKEY response of island. publishes; the DNSKEY RRset of
 \*              zone z is replaced by the attacker key and the answer is signed with it.  In terms
 \*              of items: the DS item is untouched, the DNSKEY of z and the data are not the zone's.
+\*   childKeyVouches  a scripted attack with the key of a zone the attacker holds and that zone z
+\*              delegates securely (kid.<z>): the genuine, self-signed, DS-matched DNSKEY RRset of
+\*              that child is appended (under its own owner name) to the DNSKEY response of zone z,
+\*              and the answer is replaced by data signed with the child's key, the RRSIG naming
+\*              zone z as signer.  In terms of items: the DNSKEY item of z is untouched, the data is
+\*              not the zone's (RFC 4035 5.3.1: the key must be in the *signer's* apex DNSKEY RRset).
+\* Not a fault but a way of delivery (the monitor and the generator ignore it): every owner name of
+\* every upstream response respelled in upper case.  The letter case of owner names is not signed
+\* (RFC 4034 6.2), every item stays what it is, and so every requirement below is unchanged.
 Expand(w, F) ==
     F \cup UNION {{[resp |-> "KEY", z |-> f.z, item |-> "dnskey", op |-> "swapKey"]}
                   \cup (IF f.z = w.n THEN {[resp |-> "ANS", z |-> 0, item |-> "data", op |-> "forge"]} ELSE {})
                   : f \in {g \in F : g.op = "foreignDs"}}
+      \cup UNION {(IF f.z = w.n THEN {[resp |-> "ANS", z |-> 0, item |-> "data", op |-> "forge"]} ELSE {})
+                  : f \in {g \in F : g.op = "childKeyVouches"}}
 
 \* the keys whose signature authenticates the item: for the apex DNSKEY RRset only a key
 \* that the DS (the trust anchor) vouches for (RFC 4035 5.2, 5.3.1), otherwise any zone key
@@ -258,7 +269,8 @@ AnsFaults(w, q) ==
           \cup {Flt("ANS", 0, "soa", op) : op \in {"dropSig", "alter", "dropSet"}})
     \cup {Flt("ANS", 0, "inj", "inject"), Flt("ANS", 0, "msg", "dropMsg")}
 
-KeyFaults(w) ==
+KeyFaults(w, q) ==
+    (IF w.signed[w.n] /\ q = "pos" THEN {Flt("KEY", w.n, "dnskey", "childKeyVouches")} ELSE {}) \cup
     UNION {{Flt("KEY", z, "dnskey", op) : op \in {"dropSig", "sigBit", "alter", "addRec", "swapKey", "dropSet"} \cup TwoKeyOps(w, z)}
            \cup {Flt("KEY", z, "msg", "dropMsg")} : z \in {i \in 1..w.n : w.signed[i]}}
 
@@ -274,5 +286,5 @@ DsFaults(w, q) ==
 
 NsFaults(w) == {Flt("NS", 0, "ns", "inject")} \cup {Flt("NS", z, "ns", "dropSet") : z \in 2..w.n}
 
-ApplicableFaults(w, q) == AnsFaults(w, q) \cup KeyFaults(w) \cup DsFaults(w, q) \cup NsFaults(w)
+ApplicableFaults(w, q) == AnsFaults(w, q) \cup KeyFaults(w, q) \cup DsFaults(w, q) \cup NsFaults(w)
 =============================================================================
